@@ -6,8 +6,7 @@ theorem invA_step_4 {w s l s'} (hi : InvA w s) (hs : Step s l s') (hg : grpOf l 
   cases hi
   cases hs with
   | oForward t c h hk => invA_auto
-  | oRefLoad t c h hk => invA_auto
-  | oRetire t c n h => invA_auto
+  | oEnter t c h hk => invA_auto
   | oWaited t c rest h ht hf => invA_auto
   | oGetc t c rest h ht hf => invA_auto
   | oGetRef t c rest h ht hf => invA_auto
